@@ -14,8 +14,34 @@ def fmt(payload):
             out.append(dict(id=c['id'], error=exc_info(e)))
     return dict(results=out)
 
-# ------------------------------------------------------------------ C19 oracle
+# ------------------------------------------------------------------ stage env
 import gen
+
+_ENV_KINDS = ((r'^ENVIRONMENT \(\+1 FOR FREE SPACE, -1 FOR GROUND PLANE\): \+1$', 0), (r'^ENVIRONMENT \(\+1 FOR FREE SPACE, -1 FOR GROUND PLANE\): -1$', 1),
+              (r'^ TYPE OF BOUNDARY \(1-LINEAR, 2-CIRCULAR\):', 2), (r'^ RELATIVE DIELECTRIC CONSTANT, CONDUCTIVITY:', 3),
+              (r'^ NUMBER OF RADIAL WIRES IN GROUND SCREEN:', 4), (r'^ RADIUS OF RADIAL WIRES:', 5),
+              (r'^ X OR R COORDINATE OF NEXT MEDIA INTERFACE:', 6), (r'^ HEIGHT OF MEDIA:', 7))
+def env(payload):
+    """the ENVIRONMENT block of the real report, each line reduced to its kind (10 + n for NUMBER OF MEDIA n, 99 = a line
+    the model does not know)"""
+    out = []
+    for c in payload['cases']:
+        try:
+            spec = dict(f=10.0, wires=[gen.wire(4, [0, 0, 1.0], [0, 0, 3.0], 0.001)], media=c['media'], family='env', tagmode='none',
+                        sources=[], loads=[], transforms=[], transforms_unsorted=[], scales=[])
+            m = gen.build(spec)
+            kinds = []
+            for ln in m.environment_as_mininec().split('\n'):
+                mm = re.match(r'^ NUMBER OF MEDIA \(0 FOR PERFECTLY CONDUCTING GROUND\):\s*(\d+)$', ln)
+                if mm:
+                    kinds.append(10 + int(mm.group(1))); continue
+                kinds.append(next((k for rx, k in _ENV_KINDS if re.match(rx, ln)), 99))
+            out.append(dict(id=c['id'], kinds=kinds))
+        except Exception as e:
+            out.append(dict(id=c['id'], error=exc_info(e)))
+    return dict(results=out)
+
+# ------------------------------------------------------------------ C19 oracle
 
 def _num(s):
     return float(s)
